@@ -47,10 +47,16 @@ def valAgrees (impl : XR) (delta : Rat) (m : StatVal XR) (floor : Rat) (dscale :
         | _ => false
     | _, _ => !impl.isFinite     -- degenerate shapes: some non-finite class
 
+/-- the mass of everything but the two monomorphic cells (first and last entry) -/
+def sumAbsInner (data : List XR) : Rat := sumAbs (data.drop 1).dropLast
+
 /-- scale of the defining sums, per statistic -/
 def floorOf (k : StatKind) (data : List XR) : Rat :=
   match k with
-  | .s | .sum | .pi | .theta => sumAbs data
+  | .sum => sumAbs data
+  -- S, pi and theta do not involve the monomorphic cells: the scale of their defining sums is the polymorphic mass alone (a huge
+  -- monomorphic count must not buy tolerance)
+  | .s | .pi | .theta => sumAbsInner data
   | .piXY => 2 * sumAbs data
   | .f2 | .f3 | .f4 => 1
   | .fst | .king | .r0 | .r1 => 8
